@@ -5,6 +5,7 @@ package main
 import (
 	"fmt"
 	"path/filepath"
+	"runtime"
 	"sort"
 	"strconv"
 	"strings"
@@ -25,10 +26,12 @@ type MObs struct {
 	Raw       string
 }
 
-// hostConds is measured once on the implementation (see measureHostConds).
+// hostConds: the value of every predefined condition of the universe (conds.go) on this host, by
+// the independent reading of doc.go; measureHostConds checks the implementation against it.
 var hostConds = map[string]bool{}
-var hostCondNames = []string{"short", "net", "link", "symlink", "unix", "gc", "gccgo", "linux", "darwin", "windows",
-	"amd64", "arm64", "386", "go1.1", "go1.21", "go1.99"}
+
+// the host facts the model takes as a table (GOOS, GOARCH and the toolchain version are separate keys)
+var hostFlagNames = []string{"short", "net", "link", "symlink", "gc", "gccgo"}
 
 var helperDir string
 
@@ -50,10 +53,10 @@ func cfgTokens(c *Case) []string {
 		toks = append(toks, "main="+hx(helperName))
 	}
 	var hc []string
-	for _, n := range hostCondNames {
+	for _, n := range hostFlagNames {
 		hc = append(hc, hx(n)+":"+b01(hostConds[n]))
 	}
-	toks = append(toks, "hc="+strings.Join(hc, ","))
+	toks = append(toks, "hc="+strings.Join(hc, ","), "goos="+hx(runtime.GOOS), "goarch="+hx(runtime.GOARCH), fmt.Sprintf("gominor=%d", toolMinor))
 	if c.HasCond {
 		cc := []string{c.CondDflt}
 		for _, e := range c.Conds {
